@@ -251,14 +251,22 @@ func VH_C17_shutdown() {
 func VH_C17_race() {
 	cfg := vndParam("callbacks")
 	nconn := vndParam("conns")
-	at := vndParam("at") // the Accept call (0-based) during which Shutdown is started; nconn = when Accept is about to fail
+	at := vndParam("at") // the Accept call (0-based) during which Shutdown is started; nconn = when Accept is about to fail; -1 = from the OnServeFunc callback; -2 = before the serve call
 	s := &Server{}
 	l := &vhListener{}
 	for i := 0; i < nconn; i++ {
 		l.conns = append(l.conns, &vhSrvConn{request: []byte{0, byte(i + 1), 0, 0, 0, 6, 1, 3, 0, 10, 0, 2}})
 	}
+	sctx := &vhSrvCtx{done: make(chan struct{})}
 	if cfg&1 != 0 {
-		s.OnServeFunc = func(addr net.Addr) {}
+		s.OnServeFunc = func(addr net.Addr) {
+			// at == -1: the "server is listening" callback is the signal on which another goroutine shuts the server
+			// down (this is how the library's own test waits for the server to start)
+			if at == -1 {
+				go s.Shutdown(sctx)
+				vndSettle()
+			}
+		}
 	}
 	if cfg&2 != 0 {
 		s.OnErrorFunc = func(err error) {}
@@ -269,7 +277,6 @@ func VH_C17_race() {
 	if cfg&8 != 0 {
 		s.OnCloseConnFunc = func(ctx context.Context, remoteAddr net.Addr, isServerShutdown bool) {}
 	}
-	sctx := &vhSrvCtx{done: make(chan struct{})}
 	calls := 0
 	l.onAccept = func() {
 		if calls == at {
@@ -279,9 +286,18 @@ func VH_C17_race() {
 		calls++
 	}
 	vndRaceDetect()
+	if at == -2 {
+		// Shutdown from another goroutine before the server has got to serve at all
+		go s.Shutdown(sctx)
+		vndSettle()
+	}
 	ctx := &vhSrvCtx{done: make(chan struct{})}
-	s.Serve(ctx, l, &vhHandler{mode: 0})
+	err := s.Serve(ctx, l, &vhHandler{mode: 0})
 	vndSettle()
 	vndCover("raced")
+	if at < 0 {
+		vndAssert(err == ErrServerClosed, "a server that was shut down before or while starting returns ErrServerClosed from the serve call")
+		vndAssert(l.closed >= 1, "and its listener is closed")
+	}
 	vndRaceCheck()
 }
